@@ -12,6 +12,7 @@ use crate::runner::{sample_prng, Sink, Tier};
 use crate::simrng::{run_lib_norng, Outcome};
 use crate::world::World;
 use num_bigint::BigUint;
+use num_traits::Zero;
 use serde_json::{json, Value};
 
 fn order() -> BigUint {
@@ -44,6 +45,24 @@ pub fn sm9_id(p: &mut Prng) -> Vec<u8> {
     }
 }
 
+/// One identity, or (one time in `den`) a pair of distinct identities that collide under a common
+/// 32-bit string hash or weaker digest: (first, Some(second)).
+fn id_or_colliding_pair(p: &mut Prng, w: &mut World, den: u64) -> (Vec<u8>, Option<Vec<u8>>) {
+    if p.chance(1, den) {
+        let t = id_collisions();
+        let (fam, a, b) = &t[p.below(t.len() as u64) as usize];
+        w.bump("history.colliding-identities");
+        w.bump(&format!("probe.colliding-identities.{fam}"));
+        if p.chance(1, 2) {
+            (a.clone(), Some(b.clone()))
+        } else {
+            (b.clone(), Some(a.clone()))
+        }
+    } else {
+        (sm9_id(p), None)
+    }
+}
+
 fn pick_impl(p: &mut Prng, lib_num: u64, den: u64) -> &'static str {
     if p.chance(lib_num, den) {
         "lib"
@@ -64,6 +83,12 @@ fn fault(slot: &str, kind: &str, extra: Value) -> Value {
 
 /// master key + user key for `kind` in {sign, enc, exch}; slots <pfx>.k, <pfx>.pub, <pfx>.id, <pfx>.uk
 fn setup_keys(p: &mut Prng, w: &mut World, pfx: &str, kind: &str, id: &[u8], fixed_master: Option<&str>) -> bool {
+    setup_keys_ex(p, w, pfx, kind, id, fixed_master, true)
+}
+
+/// `allow_unusable`: whether the master key may be one for which extraction must refuse (fault
+/// samples need a working key pair to enumerate faults on).
+fn setup_keys_ex(p: &mut Prng, w: &mut World, pfx: &str, kind: &str, id: &[u8], fixed_master: Option<&str>, allow_unusable: bool) -> bool {
     let s = |x: &str| format!("{pfx}.{x}");
     let mkind = if kind == "sign" { "sign" } else { "enc" };
     match fixed_master {
@@ -72,7 +97,26 @@ fn setup_keys(p: &mut Prng, w: &mut World, pfx: &str, kind: &str, id: &[u8], fix
             w.exec(json!({"op":"sm9.master_pub","impl":"lib","kind":mkind,"k":s("k"),"pub":s("pub")}));
         }
         None => {
-            if p.chance(1, 3) {
+            if p.chance(1, 10) {
+                // the master secret stands in a relation to THIS identity: equal to H1(ID||hid) (then
+                // [h1]P + Ppub adds two equal points), its double, or its negative (h1 + k = 0: the
+                // standard says such a master key must be replaced, extraction refuses)
+                let hid = match kind {
+                    "sign" => 1u8,
+                    "enc" => 3,
+                    _ => 2,
+                };
+                let h1 = rsm9::with(|s| s.h1(id, hid));
+                let n = order();
+                let (k, rel) = match p.below(4) {
+                    0 | 1 => (h1.clone(), "equal"),
+                    3 if allow_unusable => ((&n - &h1) % &n, "negative"),
+                    _ => ((&h1 * 2u32) % &n, "double"),
+                };
+                w.bump(&format!("history.master-related-to-identity.{rel}"));
+                w.exec(set(&s("k"), &be32(&k)));
+                w.exec(json!({"op":"sm9.master_pub","impl":"lib","kind":mkind,"k":s("k"),"pub":s("pub")}));
+            } else if p.chance(1, 3) {
                 w.exec(json!({"op":"sm9.master","impl":pick_impl(p, 3, 4),"kind":mkind,"k":s("k"),"pub":s("pub"),"rng":rng_json(&uniform_script(p, 1))}));
             } else {
                 let (k, _) = scalar_class(p, &order());
@@ -96,8 +140,30 @@ pub fn c09_sessions(t: Tier) -> usize {
 pub fn c09_samples(t: Tier) -> usize {
     t.pick(6, 200)
 }
+const C09_PAR: usize = 10;
 pub fn runs_c09(t: Tier) -> usize {
-    1 + c09_sessions(t) + c09_samples(t) * C09_CHUNKS
+    1 + c09_sessions(t) + c09_samples(t) * C09_CHUNKS + C09_PAR
+}
+
+/// Two signers (different master keys) on two caller threads, then two verifiers.
+fn c09_concurrent(p: &mut Prng, w: &mut World) {
+    let (ida, idb) = (sm9_id(p), sm9_id(p));
+    if !setup_keys(p, w, "pa", "sign", &ida, None) || !setup_keys(p, w, "pb", "sign", &idb, None) {
+        return;
+    }
+    for pfx in ["pa", "pb"] {
+        let len = p.range(0, 64);
+        w.exec(set(&format!("{pfx}.msg"), &msg_of_len(p, len)));
+    }
+    let sop = |pfx: &str, p: &mut Prng| -> Value {
+        let s = |x: &str| format!("{pfx}.{x}");
+        json!({"op":"sm9.sign","impl":"lib","ds":s("uk"),"ppubs":s("pub"),"id":s("id"),"msg":s("msg"),"sig":s("sig"),"rng":rng_json(&uniform_script(p, 1))})
+    };
+    let (a, b) = (sop("pa", p), sop("pb", p));
+    w.exec(par(a, b, &par_order(p)));
+    if w.slots.contains_key("pa.sig") && w.slots.contains_key("pb.sig") {
+        w.exec(par(sm9_verify_op("pa", true), sm9_verify_op("pb", true), &par_order(p)));
+    }
 }
 
 fn sm9_sign_ops(w: &mut World, pfx: &str, signer: &str, script: Value) {
@@ -124,7 +190,7 @@ pub fn run_c09(p: &mut Prng, t: Tier, i: usize, sink: &mut Sink) {
     }
     let nsess = c09_sessions(t);
     if i <= nsess {
-        let id = sm9_id(p);
+        let (id, other) = id_or_colliding_pair(p, &mut w, 6);
         if setup_keys(p, &mut w, "s", "sign", &id, None) {
             let mlen = if p.chance(1, 2) { *p.pick(&[0usize, 1, 31, 32, 55, 56, 64, 255, 1024]) } else { p.range(0, 1024) };
             w.exec(set("s.msg", &msg_of_len(p, mlen)));
@@ -133,14 +199,14 @@ pub fn run_c09(p: &mut Prng, t: Tier, i: usize, sink: &mut Sink) {
                 w.exec(sm9_verify_op("s", true));
             }
             // history: a second identity under the same master key, then the first one again
-            if p.chance(1, 4) {
-                let id2 = sm9_id(p);
+            if other.is_some() || p.chance(1, 4) {
+                let id2 = other.clone().unwrap_or_else(|| sm9_id(p));
                 w.exec(set("s.id2", &id2));
                 let r = w.exec(json!({"op":"sm9.extract","impl":pick_impl(p, 2, 3),"kind":"sign","k":"s.k","pub":"s.pub","id":"s.id2","out":"s.uk2"}));
                 if r.get("class").and_then(|c| c.as_str()) == Some("Ok") {
                     w.exec(json!({"op":"sm9.sign","impl":"lib","ds":"s.uk2","ppubs":"s.pub","id":"s.id2","msg":"s.msg","sig":"s.sig2","rng":rng_json(&uniform_script(p, 1))}));
                     if w.slots.contains_key("s.sig2") {
-                        w.exec(json!({"op":"sm9.verify","impl":"lib","ppubs":"s.pub","id":"s.id2","msg":"s.msg","sig":"s.sig2"}));
+                        w.exec(json!({"op":"sm9.verify","impl":"lib","ppubs":"s.pub","id":"s.id2","msg":"s.msg","sig":"s.sig2","ref_on_reject":true}));
                         // cross: each signature under the other identity must be refused
                         w.exec(json!({"op":"sm9.verify","impl":"lib","ppubs":"s.pub","id":"s.id","msg":"s.msg","sig":"s.sig2"}));
                     }
@@ -155,12 +221,17 @@ pub fn run_c09(p: &mut Prng, t: Tier, i: usize, sink: &mut Sink) {
         sink.done(w);
         return;
     }
+    if i >= 1 + nsess + c09_samples(t) * C09_CHUNKS {
+        c09_concurrent(p, &mut w);
+        sink.done(w);
+        return;
+    }
     // fault enumeration: sample `sidx`, chunk `chunk`
     let j = i - nsess - 1;
     let (sidx, chunk) = (j / C09_CHUNKS, j % C09_CHUNKS);
     let mut sp = sample_prng("C09-sample", sidx);
     let id = sm9_id(&mut sp);
-    if !setup_keys(&mut sp, &mut w, "a", "sign", &id, None) {
+    if !setup_keys_ex(&mut sp, &mut w, "a", "sign", &id, None, false) {
         sink.done(w);
         return;
     }
@@ -292,8 +363,81 @@ pub fn c10_sessions(t: Tier) -> usize {
 pub fn c10_samples(t: Tier) -> usize {
     t.pick(8, 300)
 }
+const C10_PAR: usize = 12;
 pub fn runs_c10(t: Tier) -> usize {
-    2 + c10_sessions(t) + c10_samples(t) * C10_CHUNKS
+    2 + c10_sessions(t) + c10_samples(t) * C10_CHUNKS + C10_PAR
+}
+
+/// Two encryptions by two caller threads (different master keys, or one master key and two
+/// identities), interleaved at the RNG seam in a seeded order; then both are decrypted.
+fn c10_concurrent(p: &mut Prng, w: &mut World) {
+    let same_master = p.chance(1, 3);
+    let ida = sm9_id(p);
+    let idb = sm9_id(p);
+    if !setup_keys(p, w, "pa", "enc", &ida, None) {
+        return;
+    }
+    if same_master {
+        w.exec(json!({"op":"copy","from":"pa.k","to":"pb.k"}));
+        w.exec(json!({"op":"copy","from":"pa.pub","to":"pb.pub"}));
+        w.exec(set("pb.id", &idb));
+        let r = w.exec(json!({"op":"sm9.extract","impl":"ref","kind":"enc","k":"pb.k","pub":"pb.pub","id":"pb.id","out":"pb.uk"}));
+        if r.get("class").and_then(|c| c.as_str()) != Some("Ok") {
+            return;
+        }
+    } else if !setup_keys(p, w, "pb", "enc", &idb, None) {
+        return;
+    }
+    for pfx in ["pa", "pb"] {
+        let len = p.range(1, 64);
+        w.exec(set(&format!("{pfx}.msg"), &msg_of_len(p, len)));
+    }
+    let (ea, eb) = (sm9_enc_op("pa", "lib", rng_json(&uniform_script(p, 1))), sm9_enc_op("pb", "lib", rng_json(&uniform_script(p, 1))));
+    w.exec(par(ea, eb, &par_order(p)));
+    for pfx in ["pa", "pb"] {
+        if w.slots.contains_key(&format!("{pfx}.ct")) {
+            w.exec(sm9_dec_op(pfx, true));
+            round_trip_check(w, pfx, 0);
+        }
+    }
+    // and two decryptions side by side (no scheduling points inside: they run one after the other)
+    w.exec(par(sm9_dec_op("pa", true), sm9_dec_op("pb", true), &par_order(p)));
+}
+
+/// Points of G1 with a coordinate at the edge of the field: x in {0..5, p-1..p-6} where x^3+5 is a
+/// square (both roots). p = 5 mod 8: square roots by Atkin's method.
+fn edge_points_g1() -> Vec<(BigUint, BigUint)> {
+    let p = rsm9::with(|s| s.p.clone());
+    let sqrt = |a: &BigUint| -> Option<BigUint> {
+        if a.is_zero() {
+            return Some(BigUint::zero());
+        }
+        let r = a.modpow(&((&p + 3u32) >> 3), &p);
+        if (&r * &r) % &p == *a {
+            return Some(r);
+        }
+        let r2 = (&r * BigUint::from(2u32).modpow(&((&p - 1u32) >> 2), &p)) % &p;
+        if (&r2 * &r2) % &p == *a {
+            Some(r2)
+        } else {
+            None
+        }
+    };
+    let mut out = vec![];
+    let mut xs: Vec<BigUint> = (0u32..6).map(BigUint::from).collect();
+    xs.extend((1u32..7).map(|k| &p - k));
+    for x in xs {
+        let rhs = (&x * &x * &x + 5u32) % &p;
+        if let Some(y) = sqrt(&rhs) {
+            if !y.is_zero() {
+                out.push((x.clone(), &p - &y));
+            }
+            out.push((x, y));
+        }
+    }
+    // p - 1 first: (p-1, 2) and (p-1, p-2)
+    out.sort_by_key(|(x, _)| if *x == &p - 1u32 { 0 } else { 1 });
+    out
 }
 
 fn sm9_enc_op(pfx: &str, imp: &str, script: Value) -> Value {
@@ -331,7 +475,7 @@ pub fn run_c10(p: &mut Prng, t: Tier, i: usize, sink: &mut Sink) {
     }
     let nsess = c10_sessions(t);
     if i - 2 < nsess {
-        let id = sm9_id(p);
+        let (id, other) = id_or_colliding_pair(p, &mut w, 6);
         if setup_keys(p, &mut w, "s", "enc", &id, None) {
             let len = ((i - 2) % 255) + 1; // every length 1..=255 across a batch
             w.exec(set("s.msg", &msg_of_len(p, len)));
@@ -346,13 +490,19 @@ pub fn run_c10(p: &mut Prng, t: Tier, i: usize, sink: &mut Sink) {
                 round_trip_check(&mut w, "s", i as u64);
             }
             // history: another identity under the same master key in between, then the first again
-            if p.chance(1, 4) {
-                let id2 = sm9_id(p);
+            if other.is_some() || p.chance(1, 4) {
+                let id2 = other.clone().unwrap_or_else(|| sm9_id(p));
                 w.exec(set("s.id2", &id2));
                 w.exec(json!({"op":"sm9.encrypt","impl":"lib","ppube":"s.pub","id":"s.id2","msg":"s.msg","ct":"s.ct2","rng":rng_json(&uniform_script(p, 1))}));
                 // a ciphertext for the other identity must not open with this identity's key
                 if w.slots.contains_key("s.ct2") {
                     w.exec(json!({"op":"sm9.decrypt","impl":"lib","de":"s.uk","ppube":"s.pub","id":"s.id","ct":"s.ct2"}));
+                    // ... and must open with the other identity's own key
+                    let r = w.exec(json!({"op":"sm9.extract","impl":"ref","kind":"enc","k":"s.k","pub":"s.pub","id":"s.id2","out":"s.uk2"}));
+                    if r.get("class").and_then(|c| c.as_str()) == Some("Ok") {
+                        w.exec(json!({"op":"sm9.decrypt","impl":"lib","de":"s.uk2","ppube":"s.pub","id":"s.id2","ct":"s.ct2","out":"s.pt2","ref_on_reject":true}));
+                        w.exec(json!({"op":"assert.eq","a":"s.pt2","b":"s.msg","needs":["s.ct2"],"property":"C10","oracle":"O10.1-round-trip","entry":"sm9.encrypt+decrypt","class":"round-trip","what":"decrypt(encrypt(M)) != M for the second identity"}));
+                    }
                 }
                 w.exec(sm9_enc_op("s", "lib", rng_json(&uniform_script(p, 1))));
                 w.slots.remove("s.pt");
@@ -366,11 +516,16 @@ pub fn run_c10(p: &mut Prng, t: Tier, i: usize, sink: &mut Sink) {
         sink.done(w);
         return;
     }
+    if i >= 2 + nsess + c10_samples(t) * C10_CHUNKS {
+        c10_concurrent(p, &mut w);
+        sink.done(w);
+        return;
+    }
     let j = i - 2 - nsess;
     let (sidx, chunk) = (j / C10_CHUNKS, j % C10_CHUNKS);
     let mut sp = sample_prng("C10-sample", sidx);
     let id = sm9_id(&mut sp);
-    if !setup_keys(&mut sp, &mut w, "a", "enc", &id, None) {
+    if !setup_keys_ex(&mut sp, &mut w, "a", "enc", &id, None, false) {
         sink.done(w);
         return;
     }
@@ -523,6 +678,35 @@ pub fn run_c10(p: &mut Prng, t: Tier, i: usize, sink: &mut Sink) {
                         w.bump("fault.crafted-coordinate-ge-p");
                         crafted.push(vec![set("a.ct", &c), d()]);
                     }
+                }
+            }
+        }
+    }
+    // crafted, CONFORMING: C1 a point of G1 with a coordinate at the edge of [0, p-1] (x = p-1 gives
+    // y = +-2; small x and x near p where x^3 + 5 is a square), K, C2, C3 derived as the standard
+    // says with w = e(C1, de). Every curve point is in G1 (prime order), so a conforming decryptor
+    // must open it: the completeness oracle is on.
+    if chunk == 0 {
+        let dew = w.slots.get("a.uk").cloned().unwrap();
+        if let Some(de) = g2_unwire(&dew) {
+            let edge = edge_points_g1();
+            let take = t.pick(4, edge.len());
+            for j in 0..take {
+                let c1 = edge[(sidx * 4 + j) % edge.len()].clone();
+                let wv = rsm9::with(|s| s.pairing(&Some(c1.clone()), &de).map(|f| s.f_bytes(&f)));
+                if let Some(wbytes) = wv {
+                    let c1w = rsm9::with(|s| s.g1_bytes(&Some(c1.clone())));
+                    let k = kdf(&[&c1w[1..], &wbytes[..], &id[..]].concat(), msg.len() + 32);
+                    let (k1, k2) = k.split_at(msg.len());
+                    if k1.iter().all(|b| *b == 0) {
+                        continue;
+                    }
+                    let c2: Vec<u8> = msg.iter().zip(k1).map(|(a, b)| a ^ b).collect();
+                    let mut c = c1w.clone();
+                    c.extend_from_slice(&sm3_parts(&[&c2, k2]));
+                    c.extend_from_slice(&c2);
+                    w.bump("fault.crafted-conforming-edge-C1");
+                    crafted.push(vec![set("a.ct", &c), sm9_dec_op("a", true), json!({"op":"assert.eq","a":"a.pt","b":"a.msg","property":"C10","oracle":"O10.3-conforming-ciphertext-opens","entry":"sm9.decrypt","class":"edge-coordinate-C1","what":"a conforming ciphertext whose C1 has an edge coordinate does not open to M"})]);
                 }
             }
         }
@@ -759,17 +943,24 @@ fn kex_session(p: &mut Prng, w: &mut World, plan: &KexPlan, fixed: Option<(&str,
         (b"Alice".to_vec(), b"Bob".to_vec())
     } else {
         let a = sm9_id(p);
-        // relation between inputs: the same identity on both sides, one a prefix of the other
-        let b = match p.below(10) {
-            0 => a.clone(),
+        // relation between inputs: the same identity on both sides, one a prefix of the other, or
+        // two identities that collide under a common 32-bit string hash
+        match p.below(10) {
+            0 => (a.clone(), a),
             1 => {
                 let mut b = a.clone();
                 b.extend_from_slice(&p.bytes(1));
-                b
+                (a, b)
             }
-            _ => sm9_id(p),
-        };
-        (a, b)
+            2 | 3 if plan.tamper.is_none() => {
+                let (x, y) = id_or_colliding_pair(p, w, 1);
+                (x, y.unwrap())
+            }
+            _ => {
+                let b = sm9_id(p);
+                (a, b)
+            }
+        }
     };
     let klen = if fixed.is_some() {
         16
@@ -778,7 +969,7 @@ fn kex_session(p: &mut Prng, w: &mut World, plan: &KexPlan, fixed: Option<(&str,
     } else {
         p.range(1, 128)
     };
-    if !setup_keys(p, w, "k", "exch", &ida, fixed.map(|f| f.0)) {
+    if !setup_keys_ex(p, w, "k", "exch", &ida, fixed.map(|f| f.0), plan.tamper.is_none()) {
         return;
     }
     // second user key under the same master
